@@ -10,10 +10,13 @@ import (
 	"encoding/base64"
 	"encoding/json"
 	"fmt"
+	"github.com/samsarahq/thunder/internal/filter"
+	"math"
 	"os"
 	"sort"
 	"strconv"
 	"strings"
+	"sync"
 
 	"github.com/samsarahq/thunder/batch"
 	"github.com/samsarahq/thunder/graphql"
@@ -29,6 +32,14 @@ type c11Item struct {
 	N  int64
 	S  string
 	F  float64
+	// NaN: the float sort value of this item is NaN (kept apart from F, which has to survive JSON)
+	NaN bool `json:"NaN,omitempty"`
+}
+
+// c11PItem is an element whose key field is a pointer (finding C11-3)
+type c11PItem struct {
+	Id *int64
+	A  string
 }
 
 type c11CtxKey struct{}
@@ -36,11 +47,12 @@ type c11FlagKey struct{}
 
 type c11Case struct {
 	Items []c11Item              `json:"items"`
-	Args  map[string]interface{} `json:"args"` // first,last (int), after,before (key int or "garbage"), filterText, filterTextFields, sortBy, sortOrder
-	Flag  bool                   `json:"flag"` // batch-with-fallback: use the batch function?
+	Args  map[string]interface{} `json:"args"`          // first,last (int), after,before (key int or "garbage"), filterText, filterTextFields, sortBy, sortOrder
+	Flag  bool                   `json:"flag"`          // batch-with-fallback: use the batch function?
+	Ptr   bool                   `json:"ptr,omitempty"` // ask the field over elements with a pointer key (no filter / sort arguments)
 }
 
-var c11FilterNames = []string{"fa", "fbExp", "faBatch", "fbFallback"}       // index = model field id
+var c11FilterNames = []string{"fa", "fbExp", "faBatch", "fbFallback"}           // index = model field id
 var c11SortNames = []string{"sn", "ss", "snExp", "snBatch", "ssFallback", "sf"} // index = model sort id
 
 func c11Schema() *graphql.Schema {
@@ -86,8 +98,24 @@ func c11Schema() *graphql.Schema {
 			}
 			return m, nil
 		}, func(i c11Item) (string, error) { return i.S, nil }, flag),
-		schemabuilder.SortField("sf", func(i c11Item) float64 { return i.F }),
+		schemabuilder.SortField("sf", func(i c11Item) float64 {
+			if i.NaN {
+				return math.NaN()
+			}
+			return i.F
+		}),
 	)
+	pobj := sb.Object("pitem", c11PItem{})
+	pobj.Key("id")
+	q.FieldFunc("pitems", func(ctx context.Context) []c11PItem {
+		items, _ := ctx.Value(c11CtxKey{}).([]c11Item)
+		out := make([]c11PItem, 0, len(items))
+		for _, it := range items {
+			id := it.Id // a fresh pointer on every request
+			out = append(out, c11PItem{Id: &id, A: it.A})
+		}
+		return out
+	}, schemabuilder.Paginated)
 	sb.Mutation()
 	return sb.MustBuild()
 }
@@ -141,6 +169,14 @@ func c11Query(args map[string]interface{}) string {
 		a = "(" + strings.Join(parts, ", ") + ")"
 	}
 	return "{ items" + a + " { totalCount edges { node { id } cursor } pageInfo { hasNextPage hasPrevPage startCursor endCursor } } }"
+}
+
+func c11QueryOf(cs c11Case) string {
+	q := c11Query(cs.Args)
+	if cs.Ptr {
+		q = strings.Replace(q, "{ items", "{ items: pitems", 1)
+	}
+	return q
 }
 
 func toInt64(v interface{}) int64 {
@@ -201,7 +237,7 @@ func c11DecodeCursor(s string) (*int64, bool) {
 func c11RunImpl(schema *graphql.Schema, cs c11Case) c11Page {
 	ctx := context.WithValue(context.Background(), c11CtxKey{}, cs.Items)
 	ctx = context.WithValue(ctx, c11FlagKey{}, cs.Flag)
-	out, err := gqlRun(ctx, schema, c11Query(cs.Args), nil)
+	out, err := gqlRun(ctx, schema, c11QueryOf(cs), nil)
 	if err != nil {
 		return c11Page{Err: err.Error()}
 	}
@@ -261,15 +297,64 @@ func c11Match(text, filterText string) bool {
 	return false
 }
 
-func c11ModelReq(cs c11Case) map[string]interface{} {
+// c11Filter asks the model (ThunderModel/PageFilter.lean) which of the texts pass the default filter for ft.
+var c11FilterMemo sync.Map
+
+func c11Filter(m *Model, ft string, texts []string) (map[string]bool, error) {
+	out := map[string]bool{}
+	var ask []string
+	for _, t := range texts {
+		if v, ok := c11FilterMemo.Load(ft + "\x00" + t); ok {
+			out[t] = v.(bool)
+		} else if _, dup := out[t]; !dup {
+			out[t] = false
+			ask = append(ask, t)
+		}
+	}
+	if len(ask) == 0 {
+		return out, nil
+	}
+	resp, err := m.Call(map[string]interface{}{"op": "filter", "ft": ft, "texts": ask})
+	if err != nil {
+		return nil, err
+	}
+	ps := resp["passes"].([]interface{})
+	for i, t := range ask {
+		out[t] = ps[i].(bool)
+		c11FilterMemo.Store(ft+"\x00"+t, out[t])
+	}
+	return out, nil
+}
+
+func c11ModelReq(m *Model, cs c11Case) (map[string]interface{}, error) {
 	ft, _ := cs.Args["filterText"].(string)
+	var texts []string
+	for _, it := range cs.Items {
+		texts = append(texts, it.A, it.B)
+	}
+	pass, err := c11Filter(m, ft, texts)
+	if err != nil {
+		return nil, err
+	}
+	if !strings.Contains(ft, "\"") {
+		// the harness's own statement for quote-free filter texts
+		for _, t := range texts {
+			if pass[t] != c11Match(t, ft) {
+				return nil, fmt.Errorf("model_ne_spec: text %q filter %q: model %v, whitespace-word statement %v", t, ft, pass[t], c11Match(t, ft))
+			}
+		}
+	}
 	// ranks for strings (case-folded) and floats
 	rankS := rankStrings(cs.Items)
 	rankF := rankFloats(cs.Items)
 	nodes := make([]interface{}, 0, len(cs.Items))
 	for _, it := range cs.Items {
-		keep := []bool{c11Match(it.A, ft), c11Match(it.B, ft), c11Match(it.A, ft), c11Match(it.B, ft)}
-		srt := []int64{it.N, rankS[strings.ToLower(it.S)], it.N, it.N, rankS[strings.ToLower(it.S)], rankF[it.F]}
+		keep := []bool{pass[it.A], pass[it.B], pass[it.A], pass[it.B]}
+		rf := rankF[it.F]
+		if it.NaN {
+			rf = -1 // NaN before every number
+		}
+		srt := []int64{it.N, rankS[strings.ToLower(it.S)], it.N, it.N, rankS[strings.ToLower(it.S)], rf}
 		nodes = append(nodes, map[string]interface{}{"key": it.Id, "keep": keep, "sort": srt})
 	}
 	args := map[string]interface{}{"first": nil, "last": nil, "after": nil, "before": nil, "filter": ft != "", "fields": []int{}, "sortBy": nil, "desc": false}
@@ -313,7 +398,7 @@ func c11ModelReq(cs c11Case) map[string]interface{} {
 	if v, ok := cs.Args["sortOrder"]; ok && v == "desc" {
 		args["desc"] = true
 	}
-	return map[string]interface{}{"op": "conn", "nodes": nodes, "args": args}
+	return map[string]interface{}{"op": "conn", "nodes": nodes, "args": args}, nil
 }
 
 func rankStrings(items []c11Item) map[string]int64 {
@@ -405,7 +490,16 @@ func c11Same(a, b c11Page) bool {
 func c11One(c *Ctx, m *Model, schema *graphql.Schema, cs c11Case) {
 	rep := c.Rep
 	impl := c11RunImpl(schema, cs)
-	resp, err := m.Call(c11ModelReq(cs))
+	req, err := c11ModelReq(m, cs)
+	if err != nil {
+		kind := "harness_error"
+		if strings.HasPrefix(err.Error(), "model_ne_spec") {
+			kind = "model_ne_spec"
+		}
+		rep.Fail(kind, nil, cs, map[string]interface{}{"error": err.Error()})
+		return
+	}
+	resp, err := m.Call(req)
 	if err != nil {
 		rep.Fail("harness_error", nil, cs, map[string]interface{}{"error": err.Error()})
 		return
@@ -413,10 +507,10 @@ func c11One(c *Ctx, m *Model, schema *graphql.Schema, cs c11Case) {
 	model := c11PageFromModel(resp["res"])
 	spec := c11PageFromModel(resp["spec"])
 	if !c11Same(impl, spec) {
-		rep.Fail("impl_ne_spec", nil, cs, map[string]interface{}{"what": "page differs from the specified page", "impl": impl, "spec": spec, "query": c11Query(cs.Args)})
+		rep.Fail("impl_ne_spec", nil, cs, map[string]interface{}{"what": "page differs from the specified page", "impl": impl, "spec": spec, "query": c11QueryOf(cs)})
 	}
 	if !c11Same(impl, model) {
-		rep.Fail("impl_ne_model", nil, cs, map[string]interface{}{"what": "page differs from model", "impl": impl, "model": model, "query": c11Query(cs.Args)})
+		rep.Fail("impl_ne_model", nil, cs, map[string]interface{}{"what": "page differs from model", "impl": impl, "model": model, "query": c11QueryOf(cs)})
 	}
 	if nd, _ := resp["nodup"].(bool); nd && !c11Same(model, spec) {
 		rep.Fail("model_ne_spec", nil, cs, map[string]interface{}{"what": "model contradicts theorem page_exact", "model": model, "spec": spec})
@@ -469,7 +563,7 @@ func c11Walk(c *Ctx, m *Model, schema *graphql.Schema, items []c11Item, base map
 		p := c11RunImpl(schema, c11Case{Items: items, Args: args, Flag: flag})
 		pages++
 		if p.Err != "" || pages > len(items)+3 {
-			rep.Fail("impl_ne_spec", nil, c11Case{items, args, flag}, map[string]interface{}{"what": "forward walk does not terminate or fails", "err": p.Err, "pages": pages})
+			rep.Fail("impl_ne_spec", nil, c11Case{Items: items, Args: args, Flag: flag}, map[string]interface{}{"what": "forward walk does not terminate or fails", "err": p.Err, "pages": pages})
 			break
 		}
 		fw = append(fw, p.Edges...)
@@ -490,7 +584,7 @@ func c11Walk(c *Ctx, m *Model, schema *graphql.Schema, items []c11Item, base map
 		p := c11RunImpl(schema, c11Case{Items: items, Args: args, Flag: flag})
 		pages++
 		if p.Err != "" || pages > len(items)+3 {
-			rep.Fail("impl_ne_spec", nil, c11Case{items, args, flag}, map[string]interface{}{"what": "backward walk does not terminate or fails", "err": p.Err, "pages": pages})
+			rep.Fail("impl_ne_spec", nil, c11Case{Items: items, Args: args, Flag: flag}, map[string]interface{}{"what": "backward walk does not terminate or fails", "err": p.Err, "pages": pages})
 			break
 		}
 		bw = append(append([]int64{}, p.Edges...), bw...)
@@ -507,7 +601,12 @@ func c11Walk(c *Ctx, m *Model, schema *graphql.Schema, items []c11Item, base map
 		rep.Fail("impl_ne_spec", nil, walkCase, map[string]interface{}{"what": "backward walk does not visit the list exactly once in order", "walk": bw, "list": L})
 	}
 	// model walk over the model's list
-	resp, err := m.Call(c11ModelReq(cs0))
+	req0, err := c11ModelReq(m, cs0)
+	if err != nil {
+		rep.Fail("harness_error", nil, cs0, map[string]interface{}{"error": err.Error()})
+		return
+	}
+	resp, err := m.Call(req0)
 	if err == nil {
 		if Canon(resp["L"]) != Canon(L) && !(len(L) == 0) {
 			rep.Fail("impl_ne_model", nil, walkCase, map[string]interface{}{"what": "filtered sorted list differs from model specList", "impl": L, "model": resp["L"]})
@@ -524,7 +623,10 @@ func c11Walk(c *Ctx, m *Model, schema *graphql.Schema, items []c11Item, base map
 	rep.Traces++
 }
 
-var c11Words = []string{"can", "man", "Cannot", "soban", "AAN", "jan", "x", "", "ban ana", "Zed"}
+var c11Words = []string{"can", "man", "Cannot", "soban", "AAN", "jan", "x", "", "ban ana", "Zed", "27\" screen", "big monitor"}
+
+// filter texts with double quotes: phrases, words touching a quote, unclosed and empty quotes
+var c11QuotedFilters = []string{"27\" monitor", "\"ban ana\"", "a\"n\"", "\"an\"x", "\"\"", "\"", "\"  \"", "zzz \"ban a", "x\"", "jan\"zzz\"", "\"zzz\"jan", "\"n a\" zzz", "zzz\"zzz\"Zed", "monitor\"", "\"big\"\"zzz\""}
 
 func c11GenItems(r *Rand) []c11Item {
 	n := r.Intn(9)
@@ -535,7 +637,7 @@ func c11GenItems(r *Rand) []c11Item {
 	items := make([]c11Item, 0, n)
 	for i := 0; i < n; i++ {
 		items = append(items, c11Item{Id: int64(perm[i] + 1), A: c11Words[r.Intn(len(c11Words))], B: c11Words[r.Intn(len(c11Words))],
-			N: int64(r.Intn(4) - 1), S: c11Words[r.Intn(len(c11Words))], F: float64(r.Intn(3)) / 2})
+			N: int64(r.Intn(4) - 1), S: c11Words[r.Intn(len(c11Words))], F: float64(r.Intn(3)) / 2, NaN: r.Chance(0.12)})
 	}
 	return items
 }
@@ -544,6 +646,9 @@ func c11GenBase(r *Rand) map[string]interface{} {
 	a := map[string]interface{}{}
 	if r.Chance(0.5) {
 		a["filterText"] = []string{"an", "CAN", "x", "zzz", "  ", "ban z", "a", "averyveryverylongwordthatmatchesnothing an", "zzzzzzzzzzzzzzzzzzzzzzzz  A x", "an averyveryverylongwordthatmatchesnothing"}[r.Intn(10)]
+		if r.Chance(0.3) {
+			a["filterText"] = c11QuotedFilters[r.Intn(len(c11QuotedFilters))]
+		}
 		if r.Chance(0.5) {
 			var fs []string
 			for _, n := range c11FilterNames {
@@ -618,7 +723,7 @@ func runC11(c *Ctx) error {
 	c.Rep.Rule = "random item lists (unique keys, duplicate texts/sort values) x random first/last/after/before (known, unknown, garbage cursors, both cursors) x filterText/filterTextFields x sortBy/sortOrder over filter+sort fields registered plain/Expensive/batch/batch-with-fallback; plus whole-list walks chained through returned cursors; non-trivial = non-empty list and at least one argument; distinct by canonical case"
 	c.Rep.Assumptions = append(c.Rep.Assumptions,
 		"node keys are unique (Nodup hypothesis of the theorems; generator guarantees it)",
-		"'passes the text filter' is stated by the harness (some non-empty whitespace token contained case-insensitively) for quote-free filter texts; the regexp tokenizer is not modelled",
+		"'passes the text filter': the tokens of the filter text are words and double-quoted phrases (ThunderModel/PageFilter.lean; theorems word_emitted, phrase_emitted); a text passes when some non-empty token occurs in it, ASCII case ignored. For quote-free filter texts the harness states it itself (whitespace-separated words) and the model is checked against that; internal/filter is also compared with the model directly on random texts over letters, white space and quotes",
 		"string sort keys are sent to the model as ranks of the case-folded strings, floats as ranks")
 	if c.Replay != "" {
 		var f struct {
@@ -655,11 +760,31 @@ func runC11(c *Ctx) error {
 	four := []c11Item{{Id: 1}, {Id: 2}, {Id: 3}, {Id: 4}}
 	c11One(c, m, schema, c11Case{Items: four, Args: map[string]interface{}{"after": int64(1), "before": int64(4)}})
 	c11One(c, m, schema, c11Case{Items: four, Args: map[string]interface{}{"after": int64(2), "before": int64(3)}})
+	// finding C11-2: a word of the filter text that touches a double quote was dropped
+	mon := []c11Item{{Id: 1, A: "Dell monitor", B: "x"}, {Id: 2, A: "room 27", B: "x"}, {Id: 3, A: "keyboard", B: "x"}}
+	for _, ft := range []string{"27\" monitor", "monitor\"zzz\"", "\"zzz\"monitor", "a\"b\"", "\"hello world\"!"} {
+		c11One(c, m, schema, c11Case{Items: mon, Args: map[string]interface{}{"filterText": ft, "filterTextFields": []string{"a"}}})
+	}
+	// finding C11-3: a pointer key; finding C11-4: a NaN among the float sort values
+	c11One(c, m, schema, c11Case{Items: four[:3], Args: map[string]interface{}{"first": 2, "after": int64(2)}, Ptr: true})
+	c11One(c, m, schema, c11Case{Items: []c11Item{{Id: 1, F: 3}, {Id: 2, NaN: true}, {Id: 3, F: 1}}, Args: map[string]interface{}{"sortBy": "sf", "sortOrder": "asc"}})
+	c11One(c, m, schema, c11Case{Items: []c11Item{{Id: 1, F: 1}, {Id: 2, NaN: true}, {Id: 3, F: 3}}, Args: map[string]interface{}{"sortBy": "sf", "sortOrder": "desc"}})
 	r := c.Rng
+	c11Tokens(c, m, r, c.N(1500, 60000))
 	n := c.N(2500, 150000)
 	for i := 0; i < n; i++ {
 		items := c11GenItems(r)
-		c11One(c, m, schema, c11Case{Items: items, Args: c11GenArgs(r, items), Flag: r.Bool()})
+		cs := c11Case{Items: items, Args: c11GenArgs(r, items), Flag: r.Bool()}
+		_, f1 := cs.Args["filterText"]
+		_, f2 := cs.Args["filterTextFields"]
+		_, f3 := cs.Args["sortBy"]
+		_, f4 := cs.Args["sortOrder"]
+		if !f1 && !f2 && !f3 && !f4 && r.Chance(0.5) {
+			cs.Ptr = true
+			rep0 := c.Rep
+			rep0.Count("pointer-key")
+		}
+		c11One(c, m, schema, cs)
 	}
 	nw := c.N(150, 8000)
 	for i := 0; i < nw; i++ {
@@ -667,4 +792,60 @@ func runC11(c *Ctx) error {
 		c11Walk(c, m, schema, items, c11GenBase(r), 1+r.Intn(4), r.Bool())
 	}
 	return nil
+}
+
+// c11Tokens compares internal/filter (GetDefaultSearchTokens, DefaultFilterFunc) with the model directly on random
+// filter texts over letters, white space and double quotes.
+type c11TokCase struct {
+	Ft    string   `json:"ft"`
+	Texts []string `json:"texts"`
+}
+
+func c11GenText(r *Rand, n int) string {
+	alpha := []string{"a", "b", "N", "z", " ", " ", "\t", "\n", "\"", "\"", "7", "!"}
+	var sb strings.Builder
+	for i := 0; i < n; i++ {
+		sb.WriteString(alpha[r.Intn(len(alpha))])
+	}
+	return sb.String()
+}
+
+func c11Tokens(c *Ctx, m *Model, r *Rand, n int) {
+	rep := c.Rep
+	for i := 0; i < n; i++ {
+		cs := c11TokCase{Ft: c11GenText(r, r.Intn(9))}
+		for j := 0; j < 4; j++ {
+			cs.Texts = append(cs.Texts, c11GenText(r, r.Intn(7)))
+		}
+		resp, err := m.Call(map[string]interface{}{"op": "filter", "ft": cs.Ft, "texts": cs.Texts})
+		if err != nil {
+			rep.Fail("harness_error", nil, cs, map[string]interface{}{"error": err.Error()})
+			return
+		}
+		implToks := filter.GetDefaultSearchTokens(cs.Ft)
+		var modelToks []string
+		for _, t := range resp["tokens"].([]interface{}) {
+			modelToks = append(modelToks, t.(string))
+		}
+		if fmt.Sprintf("%q", implToks) != fmt.Sprintf("%q", modelToks) {
+			rep.Fail("impl_ne_model", nil, cs, map[string]interface{}{"what": "tokens of the filter text differ from the model's", "impl": implToks, "model": modelToks})
+			continue
+		}
+		bad := false
+		for j, t := range cs.Texts {
+			if filter.DefaultFilterFunc(t, implToks) != resp["passes"].([]interface{})[j].(bool) {
+				rep.Fail("impl_ne_model", nil, cs, map[string]interface{}{"what": "DefaultFilterFunc differs from the model's passes", "text": t, "tokens": implToks})
+				bad = true
+			}
+		}
+		if bad {
+			continue
+		}
+		kind := "quote-free"
+		if strings.Contains(cs.Ft, "\"") {
+			kind = "with-quotes"
+		}
+		rep.Count("tokens:" + kind)
+		rep.Eval(Canon(cs), cs.Ft != "", map[string]interface{}{"op": "tokens", "kind": kind, "tokens": len(implToks)})
+	}
 }
